@@ -25,6 +25,9 @@ CHECKS = {
  "C11": dict(section="6/C11", technique=TLA + "spec->code replay of every operation chain of spec/C11_Dist.tla on every concrete distribution kind, plus TLC validation of recorded sampling traces (each draw an enabled Sample, equally seeded runs equal)",
    text="TLC explores every chain of <=2 (3 in thorough) operations (marginalize, chain, condition, joint, scaled mixture, conjunction, normalize, expectation, softmax shift, Sample) over measures with exact rational weights incl. zero entries and unnormalised totals, checks the probability laws as invariants written independently of the folds, and emits the exact measure after every step; the chains are replayed on DictDistribution, from_pairs, Uniform, Deterministic, Softmax and TableDistribution objects and items/prob/len/expectation are compared after each step; sampling traces from seeded generators are validated by TLC.",
    note="Events are atoms or pairs; <=3-4 events, weights 0..3; softmax scores are multiples of ln 2 so probabilities are exact rationals. Uniform over a set and TableDistribution.prob of tuple keys are DRIFT-level. Trusted: TLC, projection code; every emitted measure cross-checked against an independent Fraction oracle."),
+ "C16": dict(section="6/C16", technique=TLA + "spec->code replay of the multichain policy-iteration machine of spec/C16_Multichain.tla (exact gain / bias evaluation, gain and bias improvement) and exact gain oracle by chain-class analysis, plus a TLC judge pass evaluating returned policies exactly",
+   text="TLC explores the Evaluate / GainImprove / BiasImprove machine from every initial decision rule of every generated instance with EvalEquations, StoppedOptimal, StoppedPolicyAttains, NeverAboveOptimum, Terminates invariants and a Monotone action property against the oracle (MDP!OptimalValue when discounted; closed classes, stationary weights by the Markov chain tree theorem, absorption probabilities and max over deterministic policies when undiscounted); MultichainPolicyIteration.plan_on and its array function are run from default and random initial rules and, when converged, their values / gains / policy are compared with the exact optimum and the returned policy is evaluated exactly by TLC.",
+   note="<=3-4 states; non-converged runs are counted, not judged (the statement is conditional on convergence); deviations inside msdm's own isclose window are DRIFT. Trusted: TLC, projection; gain oracle cross-checked against Fraction Gauss-Jordan enumeration and the multichain LP (scipy HiGHS)."),
 }
 NOT_APPLICABLE = {
  "C19": "soft Bellman fixed point needs exp/log over reals; TLA+/TLC has bounded integers only (DESIGN.md section 10)",
